@@ -29,6 +29,9 @@ type prog struct {
 	lazy    bool // vary the observation route and skip some intermediate observations
 	ctx     bool // issue some of the calls from inside a callback of an iteration over a live container
 	derived bool // some of the lists / objects of the program are derived structures
+	// lazyHold > 0: the steps of a compound mutation are not observed one by one (no comparison, no read) unless a model
+	// node still waits to be bound
+	lazyHold int
 }
 
 // insideCallback wraps a call so that it is made by the first callback invocation of an iteration (ForEach, ForEachValue,
@@ -122,6 +125,10 @@ func (p *prog) step(op, desc string, wantPanic bool, f func()) (panicked bool) {
 	}
 	// the heap is compared after most steps, through a varying read route; now and then a step is left unobserved so
 	// that call sequences without any read in between occur as well (the next comparison still covers its effect)
+	if p.lazyHold > 0 && !p.h.HasUnbound() {
+		p.c.Count("steps_left_unobserved")
+		return
+	}
 	if p.lazy && p.r != nil && !p.h.HasUnbound() && p.r.Chance(1, 4) {
 		p.c.Count("steps_left_unobserved")
 		return
